@@ -54,8 +54,8 @@ theorem decide_frame (cfg : Cfg) (sgen : Nat → Bytes) (q : Req) (c : Ctx) :
               · exact h
 
 /-- a request generates no key, or exactly the next one -/
-theorem handle_gens (cfg : Cfg) (gen sgen : Nat → Bytes) (st : St) (q : Req) :
-    (handle cfg gen sgen st q).2.gens = [] ∨ (handle cfg gen sgen st q).2.gens = [gen st.ntok] := by
+theorem handleCore_gens (cfg : Cfg) (gen sgen : Nat → Bytes) (st : St) (q : Req) :
+    (handleCore cfg gen sgen st q).2.gens = [] ∨ (handleCore cfg gen sgen st q).2.gens = [gen st.ntok] := by
   have h0 : Frame { st := st } (ctx0 cfg sgen st q) := by
     unfold ctx0; split
     · exact mwLoad_frame sgen q _
@@ -69,8 +69,8 @@ theorem handle_gens (cfg : Cfg) (gen sgen : Nat → Bytes) (st : St) (q : Req) :
     have := decide_frame cfg sgen q (ctx0 cfg sgen st q); rw [hd] at this; exact this
   have h01 := h0.trans h1
   cases d with
-  | reject e =>
-    rw [handle_reject cfg gen sgen st q c1 e hd]
+  | reject e er =>
+    rw [handle_reject cfg gen sgen st q c1 e er hd]
     left
     show (ctxEnd cfg c1).gens = []
     rw [(hend c1).1, h01.1]
@@ -139,15 +139,15 @@ theorem dead_afterDel (scfg : SpecCfg) (q : Req) (o : Obs) (now : Nat) (live : L
 
 /-- One accepted step: a token that was issued before and is not live does not become live, provided
     the keys generated in this step are new. -/
-theorem specReq_dead_stays (scfg : SpecCfg) (s : SpecSt) (q : Req) (o : Obs) (s' : SpecSt) (t : Bytes)
-    (h : specReq scfg s q o = .ok s') (hiss : t ∈ s.issued) (hnew : ∀ g ∈ o.gens, g ∉ s.issued)
+theorem specReqCore_dead_stays (scfg : SpecCfg) (s : SpecSt) (q : Req) (o : Obs) (s' : SpecSt) (t : Bytes)
+    (h : specReqCore scfg s q o = .ok s') (hiss : t ∈ s.issued) (hnew : ∀ g ∈ o.gens, g ∉ s.issued)
     (hdead : s.liveAt t = false) : s'.liveAt t = false ∧ t ∈ s'.issued := by
-  obtain ⟨hi', hn'⟩ := specReq_issued scfg s q o s' h
+  obtain ⟨hi', hn'⟩ := specReqCore_issued scfg s q o s' h
   refine ⟨?_, by rw [hi']; exact List.mem_append_left _ hiss⟩
   have hgt : ∀ g ∈ o.gens, g ≠ t := fun g hg e => hnew g hg (e ▸ hiss)
   rw [liveAt_eq] at hdead
   rw [liveAt_eq, hn']
-  unfold specReq at h
+  unfold specReqCore at h
   simp only at h
   split at h
   · cases h
@@ -195,17 +195,17 @@ theorem specReq_dead_stays (scfg : SpecCfg) (s : SpecSt) (q : Req) (o : Obs) (s'
 
 /-- One accepted step in which a single-use token let an unsafe request through: afterwards the token
     is not live, provided the generated keys are new and the reply's cookie is another token. -/
-theorem specReq_single_consumes (scfg : SpecCfg) (s : SpecSt) (q : Req) (o : Obs) (s' : SpecSt)
-    (h : specReq scfg s q o = .ok s') (hu : isSafe q.method = false) (hp : o.pass = true)
+theorem specReqCore_single_consumes (scfg : SpecCfg) (s : SpecSt) (q : Req) (o : Obs) (s' : SpecSt)
+    (h : specReqCore scfg s q o = .ok s') (hu : isSafe q.method = false) (hp : o.pass = true)
     (hsingle : scfg.single = true) (hq : q.ck ∈ s.issued) (hnew : ∀ g ∈ o.gens, g ∉ s.issued)
     (hck : ∀ t', o.ck = some t' → t' ≠ q.ck) :
     s'.liveAt q.ck = false ∧ q.ck ∈ s'.issued := by
-  obtain ⟨hi', hn'⟩ := specReq_issued scfg s q o s' h
-  obtain ⟨_, _, t, _, _, htq, _, hti, _⟩ := specReq_ok_unsafe_pass scfg s q o s' h hu hp
+  obtain ⟨hi', hn'⟩ := specReqCore_issued scfg s q o s' h
+  obtain ⟨_, _, t, _, _, htq, _, hti, _⟩ := specReqCore_ok_unsafe_pass scfg s q o s' h hu hp
   -- issued before this request: live tokens are … we only know `t ∈ issued ++ gens`; both are in `s'.issued`
   refine ⟨?_, by rw [hi', ← htq]; exact hti⟩
   rw [liveAt_eq, hn']
-  unfold specReq at h
+  unfold specReqCore at h
   simp only at h
   split at h
   · cases h
@@ -274,10 +274,10 @@ theorem tail_ck (cfg : Cfg) (sgen : Nat → Bytes) (q : Req) (c : Ctx) (token : 
         · exact Or.inl rfl
     · rw [if_neg h2]; exact Or.inl rfl
 
-theorem handle_single_ck (cfg : Cfg) (gen sgen : Nat → Bytes) (st : St) (q : Req)
+theorem handleCore_single_ck (cfg : Cfg) (gen sgen : Nat → Bytes) (st : St) (q : Req)
     (hu : isSafe q.method = false) (hs : cfg.single = true)
-    (hp : (handle cfg gen sgen st q).2.pass = true) :
-    (handle cfg gen sgen st q).2.ck = some (gen st.ntok) ∨ (handle cfg gen sgen st q).2.ck = some [] := by
+    (hp : (handleCore cfg gen sgen st q).2.pass = true) :
+    (handleCore cfg gen sgen st q).2.ck = some (gen st.ntok) ∨ (handleCore cfg gen sgen st q).2.ck = some [] := by
   have h0 : Frame { st := st } (ctx0 cfg sgen st q) := by
     unfold ctx0; split
     · exact mwLoad_frame sgen q _
@@ -287,8 +287,8 @@ theorem handle_single_ck (cfg : Cfg) (gen sgen : Nat → Bytes) (st : St) (q : R
     have := decide_frame cfg sgen q (ctx0 cfg sgen st q); rw [hd] at this; exact this
   have h01 := h0.trans h1
   cases d with
-  | reject e =>
-    rw [handle_reject cfg gen sgen st q c1 e hd] at hp
+  | reject e er =>
+    rw [handle_reject cfg gen sgen st q c1 e er hd] at hp
     cases hp
   | proceed tok =>
     have htok : tok = [] := decide_single cfg sgen q _ tok hu hs (by rw [hd])
@@ -303,6 +303,50 @@ theorem handle_single_ck (cfg : Cfg) (gen sgen : Nat → Bytes) (st : St) (q : R
     show r2.ck = _ ∨ r2.ck = _
     rw [← h01.2.2]
     exact this
+
+/-! ## the same facts for the full step (`Next`, attribute clause) -/
+
+theorem handleSkip_gens (cfg : Cfg) (sgen : Nat → Bytes) (st : St) (q : Req) :
+    (handleSkip cfg sgen st q).2.gens = [] := by
+  unfold handleSkip
+  simp only
+  by_cases hb : cfg.backend = .sessMw
+  · simp only [hb, if_true]
+    rw [(mwSave_frame _).1, (mwLoad_frame sgen q _).1]
+  · simp only [hb, if_false]
+
+/-- a request generates no key, or exactly the next one -/
+theorem handle_gens (cfg : Cfg) (gen sgen : Nat → Bytes) (st : St) (q : Req) :
+    (handle cfg gen sgen st q).2.gens = [] ∨ (handle cfg gen sgen st q).2.gens = [gen st.ntok] := by
+  cases hs : skipped cfg q
+  · rw [handle_of_not_skipped cfg gen sgen st q hs]; exact handleCore_gens cfg gen sgen st q
+  · rw [handle_of_skipped cfg gen sgen st q hs]; exact Or.inl (handleSkip_gens cfg sgen st q)
+
+/-- One accepted step: a token that was issued before and is not live does not become live, provided
+    the keys generated in this step are new. -/
+theorem specReq_dead_stays (scfg : SpecCfg) (s : SpecSt) (q : Req) (o : Obs) (s' : SpecSt) (t : Bytes)
+    (h : specReq scfg s q o = .ok s') (hiss : t ∈ s.issued) (hnew : ∀ g ∈ o.gens, g ∉ s.issued)
+    (hdead : s.liveAt t = false) : s'.liveAt t = false ∧ t ∈ s'.issued := by
+  cases hs : skippedS scfg q
+  · exact specReqCore_dead_stays scfg s q o s' t (specReq_core scfg s q o hs s' h).2 hiss hnew hdead
+  · rw [(specReq_skip scfg s q o hs s' h).1]; exact ⟨hdead, hiss⟩
+
+/-- One accepted step in which a single-use token let an unsafe request through (`Next` not exempting
+    it): afterwards the token is not live. -/
+theorem specReq_single_consumes (scfg : SpecCfg) (s : SpecSt) (q : Req) (o : Obs) (s' : SpecSt)
+    (h : specReq scfg s q o = .ok s') (hns : skippedS scfg q = false)
+    (hu : isSafe q.method = false) (hp : o.pass = true)
+    (hsingle : scfg.single = true) (hq : q.ck ∈ s.issued) (hnew : ∀ g ∈ o.gens, g ∉ s.issued)
+    (hck : ∀ t', o.ck = some t' → t' ≠ q.ck) :
+    s'.liveAt q.ck = false ∧ q.ck ∈ s'.issued :=
+  specReqCore_single_consumes scfg s q o s' (specReq_core scfg s q o hns s' h).2 hu hp hsingle hq hnew hck
+
+theorem handle_single_ck (cfg : Cfg) (gen sgen : Nat → Bytes) (st : St) (q : Req)
+    (hns : skipped cfg q = false) (hu : isSafe q.method = false) (hs : cfg.single = true)
+    (hp : (handle cfg gen sgen st q).2.pass = true) :
+    (handle cfg gen sgen st q).2.ck = some (gen st.ntok) ∨ (handle cfg gen sgen st q).2.ck = some [] := by
+  rw [handle_of_not_skipped cfg gen sgen st q hns] at hp ⊢
+  exact handleCore_single_ck cfg gen sgen st q hu hs hp
 
 /-! ## histories -/
 
@@ -335,26 +379,24 @@ theorem run_dead_stays (raw : List Bytes) (cfg : Cfg)
     (hbuild : buildLoop raw [] [] = some (cfg.origins, cfg.subs))
     (gen sgen : Nat → Bytes) (hgen : ∀ n, gen n ≠ []) (hinj : Function.Injective gen)
     (hsgen : ∀ n, sgen n ≠ []) (hpos : 0 < cfg.idle)
-    (ops : List Op) (hwf : OpsWf ops) (st : St) (s : SpecSt) (hinv : Inv cfg gen st s) (hli : LiveIssued s)
+    (ops : List Op) (st : St) (s : SpecSt) (hinv : Inv cfg gen st s) (hli : LiveIssued s)
     (t : Bytes) (hiss : t ∈ s.issued) (hdead : s.liveAt t = false) :
-    ∃ s', specEnd (specConfig cfg.backend cfg.ext cfg.single cfg.idle raw) s ops (runObs cfg gen sgen st ops) = some s' ∧
+    ∃ s', specEnd (specConfig cfg.backend cfg.ext cfg.single cfg.idle raw cfg.next cfg.cookie cfg.eh) s ops (runObs cfg gen sgen st ops) = some s' ∧
       Inv cfg gen (run cfg gen sgen st ops).1 s' ∧ LiveIssued s' ∧ t ∈ s'.issued ∧ s'.liveAt t = false := by
   induction ops generalizing st s with
   | nil => exact ⟨s, rfl, hinv, hli, hiss, hdead⟩
   | cons o os ih =>
-    have hwf' : OpsWf os := fun q hq => hwf q (List.mem_cons_of_mem _ hq)
     rw [run_cons]
     cases o with
     | adv d =>
       simp only [runObs, step, specEnd]
-      exact ih hwf' _ _ (inv_adv cfg gen st s d hinv) hli hiss (liveAt_adv s t d hdead)
+      exact ih _ _ (inv_adv cfg gen st s d hinv) hli hiss (liveAt_adv s t d hdead)
     | req q =>
-      obtain ⟨hwo, hwr⟩ := hwf q (by simp)
-      obtain ⟨s', hs, hinv'⟩ := handle_refines raw cfg hbuild gen sgen hgen (fun _ => hinj) hsgen hpos st s q hwo hwr hinv
+      obtain ⟨s', hs, hinv'⟩ := handle_refines raw cfg hbuild gen sgen hgen (fun _ => hinj) hsgen hpos st s q hinv
       obtain ⟨hd', hi'⟩ := specReq_dead_stays _ s q _ s' t hs hiss
         (gens_new cfg gen sgen hinj st s q hinv) hdead
       simp only [runObs, step, Option.map, specEnd, hs]
-      exact ih hwf' _ _ hinv' (specReq_liveIssued _ s q _ s' hs hli) hi' hd'
+      exact ih _ _ hinv' (specReq_liveIssued _ s q _ s' hs hli) hi' hd'
 
 /-- a history and its continuation -/
 theorem run_append (cfg : Cfg) (gen sgen : Nat → Bytes) (st : St) (a b : List Op) :
@@ -381,12 +423,6 @@ theorem specEnd_append (scfg : SpecCfg) (cfg : Cfg) (gen sgen : Nat → Bytes) (
       cases specReq scfg s q (obsOf cfg (handle cfg gen sgen st q).1 (handle cfg gen sgen st q).2) with
       | error e => rfl
       | ok s' => exact ih _ _
-
-theorem opsWf_append (a b : List Op) (ha : OpsWf a) (hb : OpsWf b) : OpsWf (a ++ b) := by
-  intro q hq
-  rcases List.mem_append.mp hq with h | h
-  · exact ha q h
-  · exact hb q h
 
 theorem specEnd_one (scfg : SpecCfg) (cfg : Cfg) (gen sgen : Nat → Bytes) (st : St) (s s' : SpecSt) (q : Req)
     (h : specReq scfg s q (obsOf cfg (handle cfg gen sgen st q).1 (handle cfg gen sgen st q).2) = .ok s') :
